@@ -36,4 +36,5 @@ func main() {
 	genTable(c.NewRng(*seed*3+1), out, *nTable)
 	genReaddir(ctx, c.NewRng(*seed*3+2), out, root, *nDirs, *nScripts)
 	genFs(ctx, c.NewRng(*seed*3+3), out, root, *nFs, *compEvery)
+	genBigOff(ctx, c.NewRng(*seed*3+4), out, root)
 }
